@@ -172,6 +172,12 @@ pub fn run(ctx: &Ctx) -> CheckResult {
             res.absorb(o);
         }
     }
+    // Default::default() instances against the reference for the parameters they report
+    if !res.out.failed() {
+        let mut o = JobOut::default();
+        default_instances(PROP, &[Kind::Ema, Kind::Tr, Kind::Atr, Kind::Macd, Kind::Kc, Kind::Ce], &mut o);
+        res.absorb(o);
+    }
     res.rule = "case = (configuration, operation history) replayed on a fresh real instance; output of the last op compared with the documented recursion/formula evaluated from scratch over the whole history since reset in double-double; non-trivial = history of at least 2 inputs since reset".into();
     res.bounds = format!("seq(S_int+{{7.7,1e6}}+reset, {d}) scalar paths and seq(B_grid+reset, {db}) bar paths for periods {singles:?}, multipliers {mults:?} (side multipliers 1-2 levels shallower), the positive alphabets in a 2^-60 price unit for periods {{1,2,3,5,14}}; periods 2^32-1, 2^32, 2^32+2, 2^33+9, usize::MAX for EMA/ATR/KC/MACD; multipliers -1 / -2.5 for KC / CE; MACD triples over {{1,2,3,7}}^3 at depth {} plus (12,26,9),(3,1024,2); default streams of {lens} steps with <=1 deviation for periods up to 1024; very long runs (2 x 25k / 2 x 500k steps, all orderings of 2 of 5 regimes, thinned in quick) against an incremental double-double recursion for periods {{1,2,9,14,200}}", d - 2);
     res.assumptions = vec![
